@@ -295,6 +295,35 @@ def c11_file(replays, eqs):
     t.append("].\nEval vm_compute in (replay_verdicts rs).\nEval vm_compute in (eq_verdicts es).")
     return "\n".join(t)
 
+def shrink_C11(run, bins, j, budget=30):
+    """Greedy reduction of a history whose replays differ: drop one step, or one operation of an event, or one
+    call of an HTTP description per round; candidates are replayed (3 in-process + 2 processes) by the harness
+    and the first that still differs is kept.  Needs no coqc: `agree` is decided on the implementation alone."""
+    best = j
+    for _ in range(budget):
+        h = best["hist"]; cands = []
+        for i in range(len(h)):
+            cands.append(h[:i] + h[i + 1:])
+            if h[i]["t"] == "Event":
+                ops = h[i]["ops"]
+                for k in range(len(ops)):
+                    if len(ops) > 1: cands.append(h[:i] + [dict(h[i], ops=ops[:k] + ops[k + 1:])] + h[i + 1:])
+                    if ops[k]["t"] == "Http":
+                        d = ops[k]["desc"]
+                        for c in range(len(d["ops"])):
+                            e = dict(d, ops=d["ops"][:c] + d["ops"][c + 1:], split=d["split"] - (1 if c < d["split"] else 0))
+                            cands.append(h[:i] + [dict(h[i], ops=ops[:k] + [dict(ops[k], desc=e)] + ops[k + 1:])] + h[i + 1:])
+        cands = [c for c in cands if c][:400]
+        if not cands: break
+        p = os.path.join(C.ALT or C.CACHE, "cases", "shrink_C11.jsonl"); os.makedirs(os.path.dirname(p), exist_ok=True)
+        with open(p, "w") as fh:
+            for c in cands: fh.write(json.dumps({"hist": c}) + "\n")
+        outs = [o for o in run_harness(run, bins, "httpreq_replay", "--replay " + p) if o["kind"] == "replay"]
+        hit = [o for o in outs if not o["agree"]]
+        if not hit: break
+        best = min(hit, key=lambda o: len(json.dumps(o["hist"])))
+    return best
+
 def check_C11(run, replay=None):
     tier = run.tier
     nh, ne = (500, 2000) if tier == "quick" else (10000, 40000)
@@ -311,9 +340,9 @@ def check_C11(run, replay=None):
                 cases += run_harness(run, bins, "httpreq_replay", "--replay " + f)
             BH, BE = 500, 2000; nb = (nh + BH - 1) // BH
             for b in range(1, nb):
-                evaluate_C11(run, run_harness(run, bins, "httpreq_replay", "%d %d %d" % (run.seed * 1000003 + b, BH, BE), timeout=2400))
+                evaluate_C11(run, run_harness(run, bins, "httpreq_replay", "%d %d %d" % (run.seed * 1000003 + b, BH, BE), timeout=2400), bins)
             cases += run_harness(run, bins, "httpreq_replay", "%d %d %d" % (run.seed, min(BH, nh), min(BE, ne)), timeout=2400)
-    evaluate_C11(run, cases)
+    evaluate_C11(run, cases, bins if ok else None)
     run.cov["rule"] = ("(a) histories of 2..8 steps: events issuing 1..5 operations each (HTTP descriptions with >= 2 extra headers through the command or capability API, key-value get/set/delete/exists/list, "
                        "time now/notify_after/notify_at/clear, render), resolutions of the k-th outstanding request with a seeded response, view reads; every history is replayed against a fresh Core 3x in-process and "
                        "once in each of 2 further processes (the binary re-executes itself), and the bincode bytes of all effect batches (timer ids renumbered by first occurrence) and views (which contain the last HTTP Response as a serialized API value) are compared byte for byte; each child process also runs the history through the real Bridge and the RAW bytes it returns (effect ids, timer ids, view) are compared between the two processes; "
@@ -326,7 +355,7 @@ def check_C11(run, replay=None):
                     "harness/src/bin/httpreq_replay.rs (app, replays in 3+2 runs, renumbering, byte comparison, encoders of protocol values as trees)",
                     "engines/httpreq_eng.py printer of cases as Coq terms; lib/common.py parser of coqc output"]
 
-def evaluate_C11(run, cases):
+def evaluate_C11(run, cases, bins=None):
     reps = [j for j in cases if j["kind"] == "replay"]
     eqs = [j for j in cases if j["kind"] != "replay"]
     if not reps and not eqs:
@@ -362,6 +391,9 @@ def evaluate_C11(run, cases):
                json.dumps([slim11(j) for j in bad_ok[:3]])[:3000])
     if bad_ok:
         bad_ok.sort(key=lambda j: len(json.dumps(j)))
+        if bins and bad_ok[0]["kind"] == "replay":
+            try: bad_ok[0] = shrink_C11(run, bins, bad_ok[0])
+            except Exception as ex: run.extra["shrink_error"] = repr(ex)
         run.violation("C11_ok", {"property": "C11", "what": "replays of one history differ (after timer renumbering), or == disagrees with equality of contents",
                                  "cases": [slim11(j) for j in bad_ok[:20]],
                                  "how_to_replay": "./check C11 --replay <this file>: histories are re-run 3x in-process and in 2 child processes, eq_resp pairs are rebuilt and compared"})
